@@ -77,6 +77,7 @@ def run(R):
     R.must_call("C16.parse.checked_add", FROM_STR, ["*ruint::Uint::checked_add", "*<impl ruint::Uint<BITS, LIMBS>>::checked_add"], "units + remainder with checked_add")
     R.must_call("C16.parse.checked_sub", FROM_STR, ["core::num::<impl u64>::checked_sub"], "18 - len(fraction) with checked_sub (LossOfPrecision)")
     decimal_only(R)
+    whole_input(R)
     # (3) delegation
     R.must_call("C16.add", AMT + "AttoTokens::checked_add", ["*<impl ruint::Uint<BITS, LIMBS>>::checked_add"], "checked_add delegates to Uint::checked_add")
     R.must_call("C16.sub", AMT + "AttoTokens::checked_sub", ["*<impl ruint::Uint<BITS, LIMBS>>::checked_sub"], "checked_sub delegates to Uint::checked_sub")
@@ -123,3 +124,44 @@ def decimal_only(R):
         if not R.gate("C16.parse.digits", body, CallSink("*::from_str_radix"), [[gd]], descr="from_str_radix only on a string of ASCII digits (it skips `_`)"):
             ok = False
     R.inst("C16.parse.decimal", "K1 forbidden-callee", "amount parts are parsed as decimal digits only (no ruint FromStr; from_str_radix(_, 10))", len(radix_sites) + len(lax), ok)
+
+
+def whole_input(R):
+    """Nothing of the input string is ignored: the split into integer and fraction is `splitn(2, '.')` / `split_once('.')`
+    (the fraction then holds the rest, further dots included, and fails the digits test), or — with an unbounded `split` —
+    the result is produced only after the iterator was seen exhausted."""
+    from flow import prep, callee_matches
+    from rules import CallGuard, CallSink
+    F = R.F
+    body = R.body("C16.parse.whole", FROM_STR)
+    if body is None:
+        return
+    prep(body)
+    bounded, unbounded = [], []
+    for b in body.blocks:
+        t = b["term"]
+        if t["k"] != "call" or b["cleanup"]:
+            continue
+        nc = t["ncallee"] or ""
+        if nc in ("core::str::<impl str>::splitn", "core::str::<impl str>::rsplitn"):
+            n = [a for a in t["args"][1:2] if a[0] == "c"]
+            (bounded if n and n[0][1].startswith("2_") else unbounded).append(t)
+        elif nc in ("core::str::<impl str>::split_once", "core::str::<impl str>::rsplit_once"):
+            bounded.append(t)
+        elif nc.startswith("core::str::<impl str>::") and nc.split("::")[-1] in ("split", "rsplit", "split_terminator", "rsplit_terminator", "split_inclusive", "split_whitespace", "matches", "char_indices", "chars", "bytes"):
+            unbounded.append(t)
+    ok = bool(bounded or unbounded)
+    if not ok:
+        R.viol("C16.parse.whole", "anchor-missing:split", "from_str: no split of the input into integer and fraction found", body, body.lines[0])
+    if unbounded:
+        gd = CallGuard(["*core::iter::traits::iterator::Iterator>::next", "core::iter::traits::iterator::Iterator::next"], ("None",), "the piece iterator is exhausted")
+        n, acc, _ = gd.edges(body)
+        sink = CallSink("*<impl ruint::Uint<BITS, LIMBS>>::checked_add")
+        from cfg import cfg_of
+        g = cfg_of(body)
+        if not acc or (set(sink.blocks(body)) & g.reach((0,), cut=acc)):
+            ok = False
+            R.viol("C16.parse.whole", "input-tail-ignored:%s" % (unbounded[0]["ncallee"].split("::")[-1]),
+                   "from_str splits the input with an unbounded `%s` and produces a value without checking that no further piece is left (\"1.2.3\" parses as 1.2)" % unbounded[0]["ncallee"].split("::")[-1],
+                   body, unbounded[0]["l"])
+    R.inst("C16.parse.whole", "K4 gate", "the whole input is accounted for (splitn(2,'.') / split_once, or exhausted-iterator check)", len(bounded) + len(unbounded), ok)
